@@ -21,7 +21,7 @@ RULE = ("schemas with nested schemas, config types, lists of schemas / config ty
         "cincoconfig.ValidationError (a ValueError), ref_path == the declared path (a.b[2].c, d[key]) and a message "
         "starting with that path (plus ' (name)' for a friendly name); non-trivial = >= 3 rejections judged over >= 2 "
         "routes; distinct = distinct (schema, probes)")
-REQUIRED = ("schemas_with_an_include_field_inside_a_config_type", "schemas_with_sections_created_by_a_deep_dotted_name", "rejections_by_validator_callback:fail-empty", "schemas_with_sections_named_like_config_methods", "sections_nested_in_a_section_of_the_same_name", "cases_with_library_warnings_as_errors", "duplicate_key_documents", "moved_object_probes:list-item", "moved_object_probes:section", "schemas_with_premounted_fragments", "object_item_probes", "reordered_list_probes", "pos:dict-key", "rejections_judged", "route:attr", "route:dotted", "route:ctor", "route:load_tree", "route:loads", "pos:nested",
+REQUIRED = ("xml_documents_with_a_typed_element_whose_text_does_not_parse", "schemas_with_an_include_field_inside_a_config_type", "schemas_with_sections_created_by_a_deep_dotted_name", "rejections_by_validator_callback:fail-empty", "schemas_with_sections_named_like_config_methods", "sections_nested_in_a_section_of_the_same_name", "cases_with_library_warnings_as_errors", "duplicate_key_documents", "moved_object_probes:list-item", "moved_object_probes:section", "schemas_with_premounted_fragments", "object_item_probes", "reordered_list_probes", "pos:dict-key", "rejections_judged", "route:attr", "route:dotted", "route:ctor", "route:load_tree", "route:loads", "pos:nested",
             "pos:ctype", "pos:list-item", "pos:dict-entry", "pos:list-scalar", "pos:subconfig-slot", "friendly_names_judged",
             "after_prior_load")
 ASSUMPTIONS = ["unknown keys (AttributeError) and non-map top-level documents are not 'a value for a declared field'",
@@ -157,6 +157,10 @@ def generate(rng, ctx):
                     break
                 continue
             cand = gen.one_value(rng, nd, "invalid", env) if rng.random() < 0.6 else rng.choice(BAD_WILD)
+            if nd.get("family") == "challenge" and rng.random() < 0.5:
+                # half-written salt / digest pairs
+                cand = rng.choice([{"salt": "AAAA"}, {"salt": "AAAA", "digest": "x"}, {"digest": "AAAA"}, {"salt": "x", "digest": "AAAA"},
+                                   {"salt": 5, "digest": "AAAA"}, {"salt": "AAAA", "digest": None}])
             label_node = nd
             if tgt["pos"] == "dict-key":
                 try:
@@ -732,6 +736,15 @@ def attempt(cc, ctx, drv, pr, route, rng):
 
         if not eqstar(back, doc):
             return None
+        if fmt == "xml" and isinstance(value, str) and node.get("family") in ("int", "port", "float", "bool"):
+            # the document is edited by hand: the element keeps the declared type of the field although its text does not parse
+            from xml.sax.saxutils import escape
+
+            needle = b' type="str">' + escape(value).encode() + b'</'
+            if value and blob.count(needle) == 1:
+                typ = {"int": b"int", "port": b"int", "float": b"float", "bool": b"bool"}[node["family"]]
+                blob = blob.replace(needle, b' type="' + typ + b'">' + escape(value).encode() + b'</')
+                drv.res.count("xml_documents_with_a_typed_element_whose_text_does_not_parse")
         if pos == "subconfig-slot":
             feat = "subconfig-slot:loads"
         return _call(lambda: cfg.loads(blob, fmt)), want, fname, feat
